@@ -258,3 +258,35 @@ def hist_projection(trace, job):
             if e["k"]:
                 keys.add(e["k"])
     return {"id": trace["id"], "set": 1 if is_set else 0, "keys": sorted(keys), "threads": sorted(threads), "ev": ev}
+
+
+def reclaim_projection(trace, job):
+    """reclamation events (objects renamed 1..n) -> Trace_Reclaim input"""
+    names = {}
+
+    def oid(a):
+        if a not in names:
+            names[a] = len(names) + 1
+        return names[a]
+    ev = []
+    for e in trace["ev"]:
+        k = e.get("e")
+        if k in ("genter", "gleave"):
+            ev.append({"e": k, "g": e["g"]})
+        elif k == "retire":
+            ev.append({"e": "retire", "o": oid(e["o"]), "reach": e.get("reach", 0), "ty": e.get("ty", "?")})
+        elif k == "free":
+            ev.append({"e": "free", "o": oid(e["o"])})
+        elif k == "uaf":
+            ev.append({"e": "uaf", "how": e.get("how", "?")})
+        elif k in ("use_after_drop", "double_drop"):
+            ev.append({"e": "bad", "how": k, "obj": e.get("obj", "?")})
+        elif k == "canary":
+            ev.append({"e": "canary", "bad": e["bad"], "n": e["n"]})
+    en = trace.get("end") or {}
+    if en:
+        ev.append({"e": "end", "uaf": trace.get("uaf", 0), "corrupted": en.get("corrupted", 0), "dfree": en.get("double_free", 0),
+                   "lviol": en.get("ledger_violations", 0), "alive": en.get("alive", 0), "live": en.get("live_blocks", 0),
+                   "dropok": 1 if en.get("drop_ok", True) else 0})
+    proto = 1 if (job.get("kind") == "map" and not job.get("threads_os")) else 0
+    return {"id": trace["id"], "proto": proto, "ev": ev}
